@@ -126,6 +126,7 @@ SPECS["C19"] = dict(
         H("aggregator_h", "c19_cleanup_keep", symbolic="none", asserts="cleanup(c<=r) keeps the partial quorum of round r"),
         H("aggregator_h", "c19_cleanup_drop", symbolic="none", asserts="cleanup(c>r) drops it"),
         H("core2_h", "hv_quorum", stubbing=True, timeout=1200, mem_gb=20, symbolic="vote round, node state", asserts="Core level: the third distinct valid vote assembles the QC exactly once; acted upon only then"),
+        H("core2_h", "hv_replayed_quorum", stubbing=True, timeout=1200, mem_gb=20, symbolic="node last_voted; state right after assembling the QC for (h,7) at the leader of round 8; a full quorum of valid votes for (h,7) is replayed", asserts="no second certificate for the same block and round (no second proposal request), round/high_qc unchanged"),
     ],
 )
 
@@ -212,6 +213,7 @@ SPECS["C10"] = dict(
         H("core2_h", "hp_valid", stubbing=True, timeout=1200, mem_gb=20, symbolic="proposal round/author, node last_voted/high_qc; current round 7", asserts="round' = max(round, qc.round+1); high_qc' = max; timer reset iff advanced; never decreases"),
         H("core2_h", "hp_valid_behind", stubbing=True, timeout=1200, mem_gb=20, symbolic="as hp_valid, current round 3 (behind the proposal's QC)", asserts="enters round 7 on the QC's evidence, timer reset"),
         H("core2_h", "hp_valid_ahead", stubbing=True, timeout=1200, mem_gb=20, symbolic="as hp_valid, current round 9 (ahead)", asserts="round and timer unchanged"),
+        H("core2_h", "hp_valid_tc", stubbing=True, timeout=1200, mem_gb=20, symbolic="proposal round, node last_voted/high_qc; proposal carries QC(6) and TC(8), node in round 3", asserts="round' = 9 on the TC's evidence AND high_qc' = max(high_qc, 6): the QC of a TC-carrying proposal is not lost"),
         H("core2_h", "hv_single", stubbing=True, timeout=900, mem_gb=16, symbolic="vote, node state", asserts="no round/high_qc change without a certificate"),
         H("core2_h", "hv_quorum", stubbing=True, timeout=1200, mem_gb=20, symbolic="node last_voted/high_qc", asserts="round' = r+1 exactly when the QC for r is assembled; high_qc' = max; timer reset; Make carries high_qc"),
         H("core2_h", "hv_quorum_future_nonleader", stubbing=True, timeout=1200, mem_gb=20, symbolic="node last_voted/high_qc", asserts="as hv_quorum for a future round"),
@@ -292,19 +294,19 @@ SPECS["C11"] = dict(
 # --------------------------------------------------------------------------------------------- C12
 SPECS["C12"] = dict(
     level="model_checking",
-    technique="bounded symbolic execution of the real QuorumWaiter::run loop with harness-resolved acknowledgement handles (Kani/CBMC, SAT)",
-    bounds="committee of 4 with fully symbolic u32 stakes (own stake symbolic, total < 2^31); one batch with 3 handles acknowledged in 4 concrete orders/subsets (all, rotated, one peer only, two peers); two batches in flight with equal stakes and interleaved acknowledgements",
-    outside="other acknowledgement orders; more than 2 batches in flight; handles whose sender is dropped without a reply (counted as an acknowledgement by the code; ReliableSender never does that, see C14); the dissemination-deadline branch (unreachable: pending_counter never reaches the queue bound)",
-    trusted_base=TB_L + ["kani/shims/futures: array-backed FuturesUnordered polled in index order (everything else is the real futures-util)"],
-    assumptions=["an acknowledgement handle resolves only with the peer's reply to that message (contract of ReliableSender)"],
+    technique="bounded symbolic execution of the real QuorumWaiter::run loop, lowered with a synchronous select and take-what-is-ready acknowledgement waits (Kani/CBMC, SAT)",
+    bounds="committee of 4 with fully symbolic u32 stakes (own stake symbolic, total < 2^31); one batch with 3 acknowledgement handles of which the subsets {}, {2}, {3,1}, {1,2,3} have acknowledged before the waiter handles the batch and the others never do; batch bytes symbolic",
+    outside="PARTIAL CLAIM: the waiting itself (acknowledgements arriving while the task is suspended inside the handler), several batches in flight and head-of-line blocking, the dissemination-deadline branch; handles whose sender is dropped without a reply (counted as an acknowledgement by the code; ReliableSender never does that). The lowering replaces `wait_for_quorum.next().await` by `take the next acknowledgement that is already there, else stop waiting`, which is exact only for the listed schedules",
+    trusted_base=TB_L + ["kani/shims/futures: array-backed FuturesUnordered polled in index order", "overlay.py LOWER_LOOPS/AWAIT_OR_NONE lowering of QuorumWaiter::run"],
+    assumptions=["an acknowledgement handle resolves only with the peer's reply to that message (contract of ReliableSender)", "every acknowledgement that will arrive has arrived before the step"],
     harnesses=[
-        H("quorum_waiter_h", "c12_acks_123", pkg="mempool", stubbing=True, timeout=900, mem_gb=16, symbolic="4 stakes", asserts="after each ack: batch on the consensus channel <=> own + acknowledged stake >= quorum_threshold; never twice; task keeps running"),
-        H("quorum_waiter_h", "c12_acks_312", pkg="mempool", stubbing=True, timeout=900, mem_gb=16, symbolic="4 stakes", asserts="as 123"),
-        H("quorum_waiter_h", "c12_acks_2_only", pkg="mempool", stubbing=True, timeout=900, mem_gb=16, symbolic="4 stakes", asserts="as 123 (two peers never answer)"),
-        H("quorum_waiter_h", "c12_acks_23", pkg="mempool", stubbing=True, timeout=900, mem_gb=16, symbolic="4 stakes", asserts="as 123 (one peer never answers)"),
-        H("quorum_waiter_h", "c12_two_batches", pkg="mempool", stubbing=True, timeout=900, mem_gb=16, symbolic="batch bytes", asserts="acks of one batch never count for another; batches forwarded in order, unchanged"),
+        H("quorum_waiter_h", "c12_acked_none", stubbing=True, timeout=900, mem_gb=16, symbolic="4 stakes, batch bytes", asserts="forwarded iff own stake alone >= quorum_threshold"),
+        H("quorum_waiter_h", "c12_acked_2", stubbing=True, timeout=900, mem_gb=16, symbolic="4 stakes, batch bytes", asserts="forwarded iff own + stake(2) >= threshold; exactly once; bytes unchanged"),
+        H("quorum_waiter_h", "c12_acked_31", stubbing=True, timeout=900, mem_gb=16, symbolic="4 stakes, batch bytes", asserts="forwarded iff own + stake(3) + stake(1) >= threshold"),
+        H("quorum_waiter_h", "c12_acked_123", stubbing=True, timeout=900, mem_gb=16, symbolic="4 stakes, batch bytes", asserts="all acknowledged: forwarded exactly once"),
     ],
 )
+
 
 # C16: see NOT_APPLICABLE in lib/gen_manifest.py (harness kept for reference as DBG entries)
 # --------------------------------------------------------------------------------------------- C15 (first part; extended below)
@@ -380,7 +382,8 @@ def _c01_engine(tier, seed, rundir, repo, overlays, results):
             if tag in c["desc"]:
                 return c["status"] == "SATISFIED"
         return None
-    need = ["c01_rules_vote", "c01_rules_vote_notc", "lt_local_timeout", "pb_gap_notc", "pb_consec_notc", "c04_qc_verify_k3", "c04_tc_verify_k3"]
+    need = ["c01_rules_vote", "c01_rules_vote_notc", "lt_local_timeout", "pb_gap_notc", "pb_consec_notc", "c04_qc_verify_k3", "c04_tc_verify_k3",
+            "c04_block_verify_notc", "c04_block_verify_tc", "c04_timeout_verify_qc"]
     for n in need:
         st = by.get(n, ("MISSING", None))[0]
         if st not in ("PASS", "FAIL"):
@@ -400,7 +403,8 @@ def _c01_engine(tier, seed, rundir, repo, overlays, results):
     kn["q"] = qs[0] if len(qs) == 1 else 3
     kn["bump"] = not failed_with("lt_local_timeout", "timeout did not raise last_voted_round")
     kn["gap_any"] = failed_with("pb_gap_notc", "C05 commit without a consecutive-round")
-    kn["cert_sound"] = by["c04_qc_verify_k3"][0] == "PASS" and by["c04_tc_verify_k3"][0] == "PASS"
+    cert_sources = ["c04_qc_verify_k3", "c04_tc_verify_k3", "c04_block_verify_notc", "c04_block_verify_tc", "c04_timeout_verify_qc"]
+    kn["cert_sound"] = all(by[c][0] == "PASS" for c in cert_sources)
     sane = cov("c01_rules_vote", "sanity_qc_vote_possible") and cov("c01_rules_vote", "sanity_tc_vote_possible") and len(qs) == 1
     ref = {"rule1": "strict", "consec": True, "tc_slack": 0, "q": 3, "bump": True, "gap_any": False, "cert_sound": True}
     deviating = [k for k in ref if kn[k] != ref[k]]
@@ -474,7 +478,7 @@ def _c01_engine(tier, seed, rundir, repo, overlays, results):
     if "q" in deviating:
         rep += ["c17_quorum_k4"]
     if "cert_sound" in deviating:
-        rep += ["c04_qc_verify_k3", "c04_tc_verify_k3"]
+        rep += [c for c in cert_sources if by[c][0] == "FAIL"]
     out["replay_of"] = rep
     out["bounds"] = "N=4 nodes, f=1 Byzantine, K=%s blocks, rounds <= K+1" % ks
     out["wall_s"] = round(time.time() - t0, 1)
@@ -499,6 +503,9 @@ SPECS["C01"] = dict(
         H("core_h", "pb_consec_notc", stubbing=True, timeout=900, mem_gb=16, symbolic="node state, block", asserts="rule source: commit on a consecutive 2-chain"),
         H("messages_h", "c04_qc_verify_k3", symbolic="as C04", asserts="rule source: certificates need a quorum of distinct members with valid signatures"),
         H("messages_h", "c04_tc_verify_k3", symbolic="as C04", asserts="as above"),
+        H("messages_h", "c04_block_verify_notc", symbolic="as C04", asserts="rule source: a proposal is accepted only with a valid embedded QC (or the genesis QC)"),
+        H("messages_h", "c04_block_verify_tc", symbolic="as C04", asserts="rule source: ... and a valid embedded TC"),
+        H("messages_h", "c04_timeout_verify_qc", symbolic="as C04", asserts="rule source: a timeout is accepted only with a valid embedded high QC"),
         H("config_h", "c17_quorum_k4", symbolic="as C17", asserts="local step replayed natively if the threshold deviates"),
     ],
 )
